@@ -380,6 +380,14 @@ func (cc *connectUnaryClientConn) validateResponse(response *http.Response) *Err
 	if compression != "" &&
 		compression != compressionIdentity &&
 		!cc.compressionPools.Contains(compression) {
+		if response.StatusCode != http.StatusOK {
+			// We can't read the body of this error response, so the HTTP status is
+			// all we know: report it, as we do for bodies that aren't Connect errors.
+			return NewError(
+				connectHTTPToCode(response.StatusCode),
+				errors.New(response.Status),
+			)
+		}
 		return errorf(
 			CodeInternal,
 			"unknown encoding %q: accepted encodings are %v",
